@@ -329,3 +329,98 @@ Proof.
     cbn [negb] in Hl. rewrite andb_true_r in Hl. now apply orb_false_iff in Hl. }
   destruct Hbs as [Hzs Has]. rewrite Hzs, Has. rewrite Hzf, Haf in Hty. exact Hty.
 Qed.
+
+(* ================================================================== *)
+(* F. from the type of a sub-cluster to the specification's source    *)
+(* ================================================================== *)
+Lemma gct_eq q e : get_cluster_type q e =
+  if Z.testbit e 62 then 4
+  else if Z.testbit e 0 && negb (g_has_subclusters q) then (if field e 9 47 * 512 =? 0 then 1 else 2)
+  else if field e 9 47 * 512 =? 0 then (if g_has_data_file q && Z.testbit e 63 then 3 else 0) else 3.
+Proof.
+  unfold get_cluster_type.
+  change qcow2_QCOW_OFLAG_COMPRESSED with (2 ^ 62).
+  change qcow2_QCOW_OFLAG_ZERO with (2 ^ 0).
+  change qcow2_QCOW_OFLAG_COPIED with (2 ^ 63).
+  rewrite !land_pow2_eqb by lia. rewrite !l2e_offset. rewrite !negb_involutive.
+  destruct (Z.testbit e 62); [reflexivity|].
+  destruct (Z.testbit e 0 && negb (g_has_subclusters q)).
+  - destruct (field e 9 47 * 512 =? 0); reflexivity.
+  - destruct (field e 9 47 * 512 =? 0); [|reflexivity].
+    destruct (g_has_data_file q && Z.testbit e 63); reflexivity.
+Qed.
+
+(* what _read emits for a run of type ty whose L2 entry is e, at guest byte o *)
+Definition src_of_type (sim : simage) (ty e o : Z) : src :=
+  let within := o mod cluster_size sim in
+  if is_in ty qcow2_ZERO_SUBCLUSTER_TYPES then Zero
+  else if is_in ty qcow2_UNALLOCATED_SUBCLUSTER_TYPES then unallocated sim o
+  else if ty =? T_COMPRESSED then Infl (descriptor e) within
+  else stored sim (field e 9 47 * 512 + within).
+
+(* the part of Spec.guest_src below the table lookups *)
+Definition ext_entry_src (sim : simage) (e bm o : Z) : src :=
+  let within := o mod cluster_size sim in
+  if Z.testbit e 62 then Infl (descriptor e) within else
+  let s := within / subcluster_size sim in
+  if Z.testbit bm (32 + s) then Zero
+  else if Z.testbit bm s then stored sim (field e 9 47 * 512 + within)
+  else unallocated sim o.
+
+Definition std_entry_src (sim : simage) (e o : Z) : src :=
+  let within := o mod cluster_size sim in
+  if Z.testbit e 62 then Infl (descriptor e) within else
+  if Z.testbit e 0 then Zero else
+  let h := field e 9 47 * 512 in
+  if (h =? 0) && negb (ext_data sim && Z.testbit e 63) then unallocated sim o
+  else stored sim (h + within).
+
+Lemma ext_type_src q sim e bm o s ty :
+  g_has_subclusters q = true -> g_has_data_file q = ext_data sim ->
+  s = (o mod cluster_size sim) / subcluster_size sim -> 0 <= s < 32 ->
+  get_subcluster_type q e bm s = Ok ty -> ty <> T_INVALID ->
+  ext_entry_src sim e bm o = src_of_type sim ty e o.
+Proof.
+  intros Hx Hdf Hs Hsr Hty Hinv.
+  rewrite gst_ext_eq in Hty by (assumption || lia).
+  unfold gst_ext in Hty. cbv zeta in Hty. rewrite gct_eq in Hty. rewrite Hx in Hty.
+  rewrite andb_false_r in Hty.
+  unfold ext_entry_src. cbv zeta. rewrite <- Hs. rewrite (Z.add_comm 32 s).
+  destruct (Z.testbit e 62).
+  { apply ok_inj in Hty. subst ty. reflexivity. }
+  destruct (field e 9 47 * 512 =? 0) eqn:Hh.
+  - destruct (g_has_data_file q && Z.testbit e 63).
+    + change (3 =? 4) with false in Hty. change (3 =? 3) with true in Hty. cbv iota in Hty.
+      destruct (both_any bm); [apply ok_inj in Hty; congruence|].
+      destruct (Z.testbit bm (s + 32)); [apply ok_inj in Hty; subst ty; reflexivity|].
+      destruct (Z.testbit bm s); apply ok_inj in Hty; subst ty; reflexivity.
+    + change (0 =? 4) with false in Hty. change (0 =? 3) with false in Hty.
+      change (0 =? 0) with true in Hty. cbv iota in Hty.
+      destruct (alloc_any bm) eqn:Haa; [apply ok_inj in Hty; congruence|].
+      rewrite (alloc_any_false bm s Haa Hsr).
+      destruct (Z.testbit bm (s + 32)); apply ok_inj in Hty; subst ty; reflexivity.
+  - change (3 =? 4) with false in Hty. change (3 =? 3) with true in Hty. cbv iota in Hty.
+    destruct (both_any bm); [apply ok_inj in Hty; congruence|].
+    destruct (Z.testbit bm (s + 32)); [apply ok_inj in Hty; subst ty; reflexivity|].
+    destruct (Z.testbit bm s); apply ok_inj in Hty; subst ty; reflexivity.
+Qed.
+
+Lemma std_type_src q sim e bm o s ty :
+  g_has_subclusters q = false -> g_has_data_file q = ext_data sim ->
+  get_subcluster_type q e bm s = Ok ty ->
+  std_entry_src sim e o = src_of_type sim ty e o.
+Proof.
+  intros Hx Hdf Hty.
+  unfold get_subcluster_type in Hty. cbv zeta in Hty. rewrite Hx, gct_eq, Hx, Hdf in Hty.
+  rewrite andb_true_r in Hty.
+  unfold std_entry_src. cbv zeta.
+  destruct (Z.testbit e 62).
+  { apply ok_inj in Hty. subst ty. reflexivity. }
+  destruct (Z.testbit e 0).
+  { destruct (field e 9 47 * 512 =? 0); apply ok_inj in Hty; subst ty; reflexivity. }
+  destruct (field e 9 47 * 512 =? 0) eqn:Hh.
+  - destruct (ext_data sim && Z.testbit e 63) eqn:Hd; apply ok_inj in Hty; subst ty; cbn [negb andb].
+    + unfold src_of_type. reflexivity.
+    + reflexivity.
+  - apply ok_inj in Hty; subst ty. reflexivity.
+Qed.
